@@ -1,4 +1,4 @@
-import McpModel.Notify.SoundEnd
+import McpModel.Notify.SoundFanHeld
 /-!
 # E14: clause soundness of the typed C18 monitor
 
@@ -13,37 +13,18 @@ trace, the predicate fails on the extended trace.  `monitor_sound` packages them
 The monitor's state is history: `monAfter_truth` (its copies of the ground truth), `maxHandled_history`
 (the newest handled version of a key was announced by a notification this session handled),
 `owed_history` (a debt is owed in the sense of the property: a change to be announced, the same session
-since, no notification of the kind since, entitled at every snapshot since), `fans_history`.
+since, no notification of the kind since, entitled at every snapshot since), `fans_history`,
+`starts_history` (what a held call's session had handled when the call started), `invalidated_history` (a
+notification covering the key was handled and no call for the key went to the server since), `fan_history` (the
+snapshot record of the held fan-out in progress: who was entitled then, under which stamps, less the sessions
+closed since; who was written to since).
 
-Covered: 35 of the 41 clause constructors (all that decide the seeded changes C18-m1…m8 and the findings F7,
-F19, F35).  Not covered (`Covered c = False`): `twice` and `staleCall` are proved for one of their two
-sources each (`sound_twice_partial`: a complete fan-out; `sound_staleCall_partial`: a call answered at
-once) — the other source needs the history of a held fan-out's `served` list resp. of `starts`; likewise
-`fanNotEntitled`, `fanBadStamp`, `fanDropped` (history of `MFan.expect`) and `hitAfterInvalidate` (history of
-`invalidated`).  For these the only assurance is the bridge (no alarm on the model) and the seeded runs.
+Covered: all 41 clause constructors (`monitor_sound`).  `twice` and `staleCall` have two sources each (a complete
+fan-out / a write of a held one; a call answered at once / a held call that returns): the predicate is the
+conjunction of the two clauses of the property.
 -/
 namespace Notify.Sound
 open Notify Notify.Mon Generated.Notify
-
-theorem sound_staleCall_partial (tr : Trace) (r : Rec) (h : Reports tr r .staleCall)
-    (hl : ∃ i key mode v hit, r = ⟨.list i key mode, .ret v hit⟩) : ¬ P_fresh_call (tr ++ [r]) :=
-  sound_fresh_call tr r _ h (Or.inr (Or.inr rfl)) hl
-
-theorem sound_twice_partial (tr : Trace) (r : Rec) (h : Reports tr r .twice)
-    (hl : ∃ k t l, r = ⟨.cbrun k, .sent t l⟩) : ¬ P_twice_complete (tr ++ [r]) := by
-  intro hP
-  obtain ⟨k, t, l, er⟩ := hl
-  rcases fan_source h rfl with ⟨k', t', l', ds, e, hsd, hc⟩ | ⟨_, _, _, _, _, _, _, e, _⟩
-  · rcases cbCheck_some hc with ⟨x, _, hx⟩ | ⟨_, j, hj⟩
-    · rcases cbDeliveryClause_some hx with ⟨e2, _⟩ | ⟨e2, _⟩ | ⟨e2, _⟩ | ⟨e2, _⟩ | ⟨e2, _⟩ | ⟨e2, _⟩ | ⟨e2, _⟩ <;> cases e2
-    · have := hP tr.length t' l' k' ds (by rw [get_snoc_len, e]) hsd j
-      omega
-  · rw [er] at e; cases e
-
-/-- the clauses whose soundness is proved in full -/
-def Covered : Clause → Prop
-  | .twice | .fanNotEntitled | .fanBadStamp | .fanDropped | .staleCall | .hitAfterInvalidate => False
-  | _ => True
 
 def seenP : Seen → Trace → Prop
   | .updated => P_updReaches
@@ -60,8 +41,11 @@ def P_of : Clause → Trace → Prop
   | .noSubscription => P_noSubscription
   | .badStamp => P_badStamp
   | .wrongHandler => P_wrongHandler
-  | .twice => P_twice_complete
-  | .fanNotEntitled | .fanBadStamp | .fanDropped | .hitAfterInvalidate => fun _ => True
+  | .twice => fun tr => P_twice_complete tr ∧ P_fanOnce tr
+  | .fanNotEntitled => P_fanEntitled
+  | .fanBadStamp => P_fanStamp
+  | .fanDropped => P_fanReaches
+  | .hitAfterInvalidate => P_refetch
   | .lostWindow _ _ _ s => seenP s
   | .lostOverlap _ _ _ _ s => seenP s
   | .updAckWindow | .updMissed => P_updReaches
@@ -71,16 +55,16 @@ def P_of : Clause → Trace → Prop
   | .updOtherUri => P_updOtherUri
   | .updLegacyStamped => P_updLegacyStamped
   | .updBadStamp => fun tr => P_updBadStamp tr ∧ P_updOnly tr
-  | .staleRead _ | .f7Stale | .staleCall => P_fresh_call
+  | .staleRead _ | .f7Stale => P_fresh_call
+  | .staleCall => fun tr => P_fresh_call tr ∧ P_fresh_held tr
   | .closedMentioned => P_closedForgotten
   | .ackTableWindow | .f19Registered | .ackedMissing => P_ackedServed
   | .refusedLeft | .foreignEntry => P_noForeign
   | .endMixedRemove | .endMidFan | .endSkippedAck | .endF19 | .endSkipped | .endNoLost => P_notified
 
-/-- **monitor_sound (partial: the covered clauses).**  Whenever the monitor reports a covered clause on the record that
-extends a trace, the corresponding clause of the property is false of the extended trace. -/
-theorem monitor_sound_partial (tr : Trace) (r : Rec) (c : Clause) (hc : Covered c) (h : Reports tr r c) :
-    ¬ P_of c (tr ++ [r]) := by
+/-- **monitor_sound.**  Whenever the monitor reports a clause on the record that extends a trace, the corresponding
+clause of the property is false of the extended trace. -/
+theorem monitor_sound (tr : Trace) (r : Rec) (c : Clause) (h : Reports tr r c) : ¬ P_of c (tr ++ [r]) := by
   cases c with
   | malformed => exact sound_malformed tr r h
   | wrongKind => exact sound_wrongKind tr r h
@@ -90,12 +74,12 @@ theorem monitor_sound_partial (tr : Trace) (r : Rec) (c : Clause) (hc : Covered 
   | noSubscription => exact sound_noSubscription tr r h
   | badStamp => exact sound_badStamp tr r h
   | wrongHandler => exact sound_wrongHandler tr r h
-  | twice => exact absurd hc (by simp [Covered])
-  | fanNotEntitled => exact absurd hc (by simp [Covered])
-  | fanBadStamp => exact absurd hc (by simp [Covered])
-  | fanDropped => exact absurd hc (by simp [Covered])
-  | staleCall => exact absurd hc (by simp [Covered])
-  | hitAfterInvalidate => exact absurd hc (by simp [Covered])
+  | twice => exact sound_twice tr r h
+  | fanNotEntitled => exact sound_fanNotEntitled tr r h
+  | fanBadStamp => exact sound_fanBadStamp tr r h
+  | fanDropped => exact sound_fanDropped tr r h
+  | staleCall => exact sound_staleCall tr r h
+  | hitAfterInvalidate => exact sound_hitAfterInvalidate tr r h
   | lostWindow a b w s =>
     cases s with
     | updated => exact sound_lostWindow_updated tr r a b w h
@@ -132,7 +116,43 @@ theorem monitor_sound_partial (tr : Trace) (r : Rec) (c : Clause) (hc : Covered 
 
 /-- the predicates are not vacuous: all of them hold of the empty trace and of a trace of records that deliver
 nothing (so a report is a statement about what the implementation did) -/
-example : P_disabled [] ∧ P_updReaches [] ∧ P_ackedServed [] ∧ P_notified [] ∧ P_fresh_call [] := by
-  refine ⟨?_, ?_, ?_, ?_, ?_⟩ <;> intro i <;> simp
+example : P_disabled [] ∧ P_updReaches [] ∧ P_ackedServed [] ∧ P_notified [] ∧ P_fresh_call [] ∧ P_fresh_held [] ∧
+    P_refetch [] ∧ P_fanEntitled [] ∧ P_fanStamp [] ∧ P_fanOnce [] ∧ P_fanReaches [] := by
+  refine ⟨?_, ?_, ?_, ?_, ?_, ?_, ?_, ?_, ?_, ?_, ?_⟩ <;> intro i <;> simp
+
+/-! ### the clauses added last can be reported: traces on which the monitor raises them -/
+
+def legacy2 : Trace :=
+  [⟨.config .on .on .on false, .ok⟩, ⟨.connect 0 1 false [], .ok⟩, ⟨.connect 1 2 false [], .ok⟩,
+   ⟨.change .tools .add, .ok⟩, ⟨.advance 10, .fired [.tools]⟩]
+
+def wr (i : Slot) : Delivery := ⟨.slot i, .changed .tools, .plain, .none⟩
+
+set_option maxRecDepth 20000 in
+example : Reports (legacy2 ++ [⟨.cbstep .tools, .fan false⟩, ⟨.fsend .tools, .fsent (.slot 0) 1 [wr 0] false⟩])
+    ⟨.fsend .tools, .fsent (.slot 0) 1 [wr 0] true⟩ .twice := by unfold Reports; decide
+
+set_option maxRecDepth 20000 in
+example : Reports (legacy2 ++ [⟨.cbstep .tools, .fan false⟩, ⟨.connect 2 3 false [], .ok⟩])
+    ⟨.fsend .tools, .fsent (.slot 2) 1 [wr 2] false⟩ .fanNotEntitled := by unfold Reports; decide
+
+set_option maxRecDepth 20000 in
+example : Reports (legacy2 ++ [⟨.cbstep .tools, .fan false⟩])
+    ⟨.fsend .tools, .fsent (.slot 0) 1 [] false⟩ .fanDropped := by unfold Reports; decide
+
+set_option maxRecDepth 20000 in
+example : Reports ([⟨.config .on .on .on false, .ok⟩, ⟨.connect 0 1 true [.tools], .ok⟩, ⟨.listen 0 false, .ack [.tools] [] false⟩,
+      ⟨.change .tools .add, .ok⟩, ⟨.advance 10, .fired [.tools]⟩, ⟨.cbstep .tools, .fan false⟩,
+      ⟨.xlisten 0 2 [.tools] [] false, .ack [.tools] [] false⟩])
+    ⟨.fsend .tools, .fsent (.slot 0) 1 [⟨.slot 0, .changed .tools, .id 2, .none⟩] true⟩ .fanBadStamp := by unfold Reports; decide
+
+set_option maxRecDepth 20000 in
+example : Reports (legacy2 ++ [⟨.cbrun .tools, .sent 1 [wr 0, wr 1]⟩, ⟨.list 0 (.list .tools) .post, .pre⟩])
+    ⟨.fill 0 (.list .tools), .ret 0 false⟩ .staleCall := by unfold Reports; decide
+
+set_option maxRecDepth 20000 in
+example : Reports (legacy2 ++ [⟨.list 0 (.list .tools) .n, .ret 1 false⟩, ⟨.cbrun .tools, .sent 1 [wr 0, wr 1]⟩])
+    ⟨.list 0 (.list .tools) .n, .ret 1 true⟩ .hitAfterInvalidate := by unfold Reports; decide
+
 
 end Notify.Sound
